@@ -22,13 +22,13 @@ RULE = ("histories of <= L bus transactions over an alphabet of 16 transaction k
         "frames, stray backward frame) x gap placement (timer before report) x subscriber join/leave points x own sends; "
         "all schedules with <= d deviations; states = distinct (history, report list) observations")
 ASSUMPTIONS = [
-    "Tridonic: foreign frames arrive as mode-0x11 reports, own transmissions as mode-0x12 reports (gateway model of dalimc.aio.hidworld)",
+    "Tridonic: foreign frames arrive as mode-0x11 reports, own transmissions as mode-0x12 reports (gateway model of dalimc.aio.hidworld); documented firmware quirk: a foreign forward frame equal to the interface's last transmission, seen after that transmission has completed, is reported with mode 0x12 and the old sequence number (the frames that follow it are reported normally)",
     "a timer that fires in the same loop iteration in which a report is being handed to the watcher is ambiguous (asyncio resolves it either way); the oracle accepts both readings for exactly those timers",
     "a subscriber that joins/leaves in the iteration between the issue of a report and its delivery may or may not see it",
     "frames are decoded with the device type of an immediately preceding ENABLE DEVICE TYPE only; a standard opcode under a foreign device type decodes to the generic unknown command (library convention, see C01)",
 ]
 SANITY = ["tridonic_reports", "tridonic_gaps", "tridonic_subscriber_deliveries", "tridonic_failed_config_reports",
-          "luba_reports", "sci_reports", "luba_extra_subscriber_reports", "sci_extra_subscriber_reports"]
+          "tridonic_quirk_reports", "luba_reports", "sci_reports", "luba_extra_subscriber_reports", "sci_extra_subscriber_reports"]
 BOUNDS = {"quick": "Tridonic: histories len<=2 at d<=2, len 3 at d<=1; serial: histories len<=3 (single schedule + chunk placement d<=1); subscribers <=2",
           "thorough": "Tridonic: len<=3 at d<=2, len 4 at d<=1; serial len<=4; subscribers <=3"}
 
@@ -71,6 +71,16 @@ ALPHABET = {
     "stray-backward": [("B", 9)],
 }
 KINDS = list(ALPHABET)
+# frames of another master that repeat the driver's own last transmission (own sends use short address 9): the
+# DALI-USB reports such a frame as if it had sent it itself (documented firmware quirk) - still bus traffic
+OWNQ, OWNC = 0x13A0, 0x1342
+QUIRK_ALPHABET = {
+    "own-query-again+answer": [("F", 16, OWNQ), ("B", 0x66)],
+    "own-query-again+silence": [("F", 16, OWNQ)],
+    "own-config-again-twice": [("F", 16, OWNC), ("F", 16, OWNC)],
+    "own-config-again-once": [("F", 16, OWNC)],
+}
+ALL_KINDS = dict(ALPHABET, **QUIRK_ALPHABET)
 
 
 def row_flags(desc):
@@ -190,7 +200,7 @@ def make_trid_world(kinds, nsubs=0, own=None, with_map=False):
     def make():
         from dalimc.aio.hidworld import HidWorld, report
         from dali.device.helpers import DeviceInstanceTypeMapper
-        items = [it for kd in kinds for it in ALPHABET[kd]]
+        items = [it for kd in kinds for it in ALL_KINDS[kd]]
         reps = []
         for it in items:
             if it[0] == "F":
@@ -270,6 +280,7 @@ def judge_trid(res, cfg, w, obs):
     observe(res, "tridonic_gaps", sum(1 for x in w.effective if x[0] == "GAP"))
     observe(res, "tridonic_subscriber_deliveries", sum(len(v) for v in w.sublog.values()))
     observe(res, "tridonic_failed_config_reports", sum(1 for x in got if x[2]))
+    observe(res, "tridonic_quirk_reports", getattr(w, "quirk_reports", 0))
     maptype = 3 if cfg.get("with_map") else "nomap"
     poss, _ = ref_buswatch(w.effective, maptype)
     poss = [norm(p) for p in poss]
@@ -315,7 +326,15 @@ def run_trid(cfg, bound, res, outs):
         orig1 = w._deliver1
 
         def d1():
-            w.log1.append(tuple(w.items[len(w.log1)]))
+            it = tuple(w.items[len(w.log1)])
+            w.log1.append(it)
+            gw = w.gateway
+            own_done = bool(w.callers) and all(c.task is not None and c.task.done() for c in w.callers)
+            if it[0] == "F" and own_done and not gw.pending and gw.wire and gw.wire[-1][:2] == (it[1], it[2]):
+                # firmware quirk: reported with mode 0x12 and the sequence number of the finished transmission
+                from dalimc.aio.hidworld import report
+                gw.observe[0] = report(0x12, 0x73 if it[1] == 16 else 0x76, it[2].to_bytes(4, "big"), gw.wire[-1][3])
+                w.quirk_reports = getattr(w, "quirk_reports", 0) + 1
             orig1()
         w._deliver1 = d1
         orig0 = w._deliver0
@@ -544,6 +563,10 @@ def shards(tier):
     out.append(("trid", sel + [("event-devinst",), ("unknown24", "event-devinst")], 2, 0, "map"))
     for own in ("query", "twice"):
         out.append(("trid", [("plain",), ("query+answer",), ("config-once",), ("edt+ext",)], 2 if tier == "quick" else 3, 0, own))
+    # foreign frames that repeat the driver's own last transmission (reported by the gateway with the old sequence number)
+    for own, q in (("query", ["own-query-again+answer", "own-query-again+silence"]), ("twice", ["own-config-again-twice", "own-config-again-once"])):
+        hs = [(a,) for a in q] + [(a, b) for a in q for b in q + ["plain", "query+answer"]] + [(b, a) for a in q for b in ("plain", "config-once")]
+        out.append(("trid", hs, 2 if tier == "quick" else 3, 0, own))
     for drv in ("luba", "sci"):
         n = 3 if tier == "quick" else 4
         for L in range(1, n + 1):
